@@ -9,12 +9,20 @@
 //   - every chain up to a length over a handler alphabet {allowall, denyall, allow(R), deny(R),
 //     query_ignore(Q)} with R from a stated core of rule sets,
 //   - ignore_parse_error on / off, MySQL and PostgreSQL dialect,
-//   - every pool statement in 9 formatting variants plus 10 unparsable strings.
+//   - every pool statement in 9 formatting variants plus 10 unparsable strings; the pool writes tables
+//     bare, quoted and with a schema / database qualifier (s1.t1), and the `tables` rules are the bare
+//     names (the documented form) and the qualified spellings of the pool's tables,
+//   - stacked statements (stack.go): one client message that carries 2 or 3 pool statements separated
+//     by ';' - every ordered tuple over a stated sub-pool, in 2 (thorough: 3) spellings of the separator -
+//     judged on every configuration of the chain layers (thorough: of every layer). Such a message is
+//     forwarded as a whole, so it must not be admitted on the strength of a part of it.
 //
 // The statements are terms of the check's own representation (term.go); SQL text, rules and the
 // reference matcher (rules.go) are derived from the terms, never from Acra's AST.
 //
-// Part (b) "enforcement" (proxy sessions) is a separate phase added to main below.
+// Part (b) "enforcement" (proxy sessions, enforce.go / mysql_enforce.go) is a separate phase added to
+// main below; its statement alphabets contain stacked messages too (admitted + denied statement in
+// one simple-query message / COM_QUERY packet, both orders): nothing of them may reach the database.
 package main
 
 import (
@@ -72,6 +80,23 @@ func replay(r *ev.Run) {
 	if c.Stmt >= len(w.pool) || -c.Stmt-1 >= len(unparsable) {
 		ev.Fatalf("replay: statement index %d outside the pool", c.Stmt)
 	}
+	if len(c.Stack) > 0 {
+		st := stackT{Parts: c.Stack}
+		for _, si := range c.Stack {
+			if si < 0 || si >= len(w.pool) {
+				ev.Fatalf("replay: statement index %d outside the pool", si)
+			}
+		}
+		if got := w.stackText(c.Dialect, st, c.Spelling); got != c.Statement {
+			ev.Fatalf("replay: the pool changed: stacked message %v spelling %d is now %q", c.Stack, c.Spelling, got)
+		}
+		a := newAcc()
+		w.judgeStack(r, a, c.Dialect, c.Config, censor, y, st, make([]string, len(w.pool)))
+		a.flush(r)
+		r.States(1)
+		r.Traces(1)
+		r.Finish()
+	}
 	if got := w.stmtText(c.Dialect, c.Stmt, c.Variant); got != c.Statement {
 		ev.Fatalf("replay: the pool changed: statement %d variant %d is now %q", c.Stmt, c.Variant, got)
 	}
@@ -110,11 +135,14 @@ func main() {
 	r.Rule("verdict: state = one firewall configuration (chain of handlers with rule sets, ignore_parse_error, dialect; " +
 		"layers: every derivable rule alone in [deny(r)] and [allow(r),denyall]; [thorough: every pair of core rules in the same two contexts;] " +
 		"every chain of length <= 2 over the core handler alphabet; [thorough: every chain of length 3 over the small alphabet]) x one statement class " +
-		"(pool statement or unparsable string); transition = one HandleQuery call of the real AcraCensor (every statement in every formatting variant); " +
+		"(pool statement, unparsable string, or - on the chain layers [thorough: on every layer] - one stacked message: an ordered tuple of 2 or 3 statements of a stated sub-pool written into one client message, separated by ';'); transition = one HandleQuery call of the real AcraCensor (every statement in every formatting variant); " +
+		"a stacked message is sent in 2 [thorough: 3] spellings of the separator; it must be rejected when the documented semantics reject it both as unparsable text and because one of its statements is rejected on its own, admitted when both readings admit it, and get one verdict for all spellings; " +
 		"traces = configurations loaded through LoadConfiguration; distinct_nontrivial = distinct (chain shape, rule kinds and placeholder classes per handler, statement kind, AcraCensor verdict class)")
 	r.Assume(
 		"reference semantics taken from the repository's own documentation: package docs, handler doc comments, configs/acra-censor.example.yaml and the acra-censor unit tests (see comments in rules.go / chain.go)",
 		"tables rules are compared only for tables read at top level (FROM incl. joins) and INSERT targets; sub-selects, derived tables, INSERT...SELECT sources, UNION branches and UPDATE/DELETE targets are not compared when they could change the answer",
+		"tables rules and schema / database qualifiers: a deny rule with a bare name covers the table under every qualifier, a rule written with a qualifier covers the table written with that qualifier; an allow rule with a bare name against a qualified table, and a qualified rule against a bare table, are not compared (whether they name one table depends on the connection's schema); patterns and queries rules compare the qualifier like any other identifier",
+		"stacked statements: a message of several ';'-separated statements may be treated as unparsable text (rejected unless ignore_parse_error, then decided by allowall / denyall / query_ignore) or as the sequence of its statements (admitted only if each is admitted on its own); a verdict either reading yields is accepted, so with ignore_parse_error a message that carries a denied statement may pass a deny handler as unparsable text - the configuration tolerates it explicitly",
 		"identifier case: patterns compare identifiers case-insensitively (as sqlparser documents); queries / tables / query_ignore rules against a statement that differs only in identifier case are not compared",
 		"%%WHERE%% against a statement without WHERE clause and %%WHERE%% inside UPDATE / DELETE patterns are not compared (not covered by the repository's documentation)",
 		"an empty handler list means the firewall is switched off (documented in HandleQuery): everything passes, unparsable statements included",
